@@ -118,7 +118,9 @@ var (
 		{{Name: "sid", Value: "abc", Path: "/p", Domain: "example.com", Expires: "2026-10-21T07:28:00Z", HTTPOnly: true, Secure: true}},
 		{{Name: "a", Value: "1", Secure: true}, {Name: "b", Value: "2", Path: "/", HTTPOnly: true}}}
 
-	ExtraHeaders = [][]KV{nil, {{"X-Multi", "a"}, {"X-Multi", "b"}, {"X-Empty", ""}}}
+	ExtraHeaders = [][]KV{nil, {{"X-Multi", "a"}, {"X-Multi", "b"}, {"X-Empty", ""}},
+		// repeated fields whose values are not in ascending order (the order of the lines is part of the message)
+		{{"X-Multi", "zeta"}, {"X-Multi", "alpha"}, {"Via", "1.1 second"}, {"Via", "1.0 first"}, {"Accept-Language", "fr;q=0.9"}, {"Accept-Language", "en"}}}
 
 	Locations = []string{"http://example.com/new?x=1", "/login"}
 
